@@ -22,18 +22,23 @@ def run_modes(ctx, modes, monitor_names, seed_offset=0):
         infile, implfile = machine.run_machine(ctx, name, mode, n, ctx.seed + seed_offset)
         ctx.correspondence("machine/%s: real handlers+session manager+store+lock+provider calls vs Model/Machine.v (per-event operation, outcome, store snapshot)" % mode,
                            infile, implfile)
-        scs = list(machine.load_scenarios(infile, implfile))
-        st = machine.stats(scs)
-        all_stats[mode] = st
+        # one streaming pass: monitors and statistics per scenario (nothing is kept but a hash of each event sequence and the first sample)
         distinct = set()
-        for s in scs:
-            distinct.add(s.raw_in)
-            for mn in monitor_names:
-                for (key, what, extra) in getattr(monitors, mn)(s):
-                    ctx.violation(key, what, s.case(extra))
+        first = []
+
+        def visit():
+            for s in machine.load_scenarios(infile, implfile):
+                distinct.add(hash(s.raw_in))
+                if not first:
+                    first.append((s.raw_in[:1500], s.raw_obs[:1500]))
+                for mn in monitor_names:
+                    for (key, what, extra) in getattr(monitors, mn)(s):
+                        ctx.violation(key, what, s.case(extra))
+                yield s
+        all_stats[mode] = machine.stats(visit())
         ctx.nontrivial += len(distinct)
-        if scs:
-            ctx.samples.append({"mode": mode, "scenario": scs[0].raw_in[:1500], "observed": scs[0].raw_obs[:1500]})
+        if first:
+            ctx.samples.append({"mode": mode, "scenario": first[0][0], "observed": first[0][1]})
     ctx.extra["input_distribution"] = all_stats
     ctx.rule = ("scenarios of the session machine generated from one PRNG (VERIF_SEED): histories (logins, clock advances to boundary instants +-1ns/1s, "
                 "requests of every kind with every cookie class), fault sequences (store error / 4xx / 5xx / malformed / cancellation at operation boundaries), "
